@@ -652,7 +652,47 @@ def rule_purge(run):
     c11.rule_definition_purge(run)   # a stale cached definition makes a traced function see old globals (C10) and history (C11)
 
 
-RULES = [rule_tables, rule_dispatch, rule_compare_chain, rule_boolop, rule_fail_closed, rule_bind, rule_env, rule_builtins, rule_siblings, rule_unpack, rule_purge, rule_defaults, rule_comprehension, rule_unreachable, rule_getattr, rule_returns_always]
+def rule_default_names(run):
+    run.begin(
+        "C10.defnames",
+        "positional default values belong to the LAST parameters of the combined list positional-only + positional "
+        "(def f(a=1, /, b=2): defaults (1, 2) go to a and b); keyword-only defaults are paired by position with the "
+        "keyword-only names",
+        floor=1,
+    )
+    cas = run.idx.mod(CAS)
+    f = cas.func("FunctionDefinition.from_ast_fn")
+    pats = P.find(f.node, "__n = [*__p, *__a][-len(__d):]")
+    ok = False
+    for node, b in pats:
+        # __p / __a are the positional-only and the regular parameter name lists, __d the defaults
+        ok = True
+    alt = [a for a in walk_local(f.node) if isinstance(a, ast.Assign) and isinstance(a.value, ast.Subscript) and "defaults" in src(a.value.slice) and "kw" not in src(a.value.slice)]
+    found = "; ".join(src(a)[:70] for a in alt) or "not found"
+    run.ob(ok, "FunctionDefinition.from_ast_fn", file=cas.rel, line=(alt[0].lineno if alt else f.node.lineno), detail="positional-defaults", expected="arg_names = [*posonly, *args][-len(defaults):]", found=found)
+    run.end()
+
+
+def rule_loop_scope(run):
+    run.begin(
+        "C10.scope",
+        "names bound by a loop / comprehension target are released when the iteration ends: every name that was bound since "
+        "the target was created is unset (none is exempted), and targets are bound with set_local",
+        floor=2,
+    )
+    prep = run.idx.mod(PREP)
+    rl = prep.func("PrepareAst.Target.restore_locals")
+    nb = [b["__n"] for _n, b in P.find(rl.node, "__n = self.converter.bound_names() - self.initial_bound")]
+    calls = [c for c in calls_in(rl.node) if isinstance(c.func, ast.Attribute) and c.func.attr == "unset_locals"]
+    ok = len(nb) == 1 and len(calls) == 1 and dotted(calls[0].args[0]) == nb[0]
+    run.ob(ok, "PrepareAst.Target.restore_locals", file=prep.rel, line=rl.node.lineno, detail="releases-all", expected="unset_locals(<all names bound since the target was created>)", found=src(calls[0])[:80] if calls else "missing")
+    up = prep.func("PrepareAst.Target.unpack")
+    setters = sorted({c.func.attr for c in calls_in(up.node) if isinstance(c.func, ast.Attribute) and dotted(c.func.value) == "self.converter"})
+    run.ob(setters == ["set_local"], "PrepareAst.Target.unpack", file=prep.rel, line=up.node.lineno, detail="binds-with-set_local", expected="self.converter.set_local(name, value)", found=str(setters))
+    run.end()
+
+
+RULES = [rule_tables, rule_dispatch, rule_compare_chain, rule_boolop, rule_fail_closed, rule_bind, rule_env, rule_builtins, rule_siblings, rule_unpack, rule_purge, rule_defaults, rule_comprehension, rule_unreachable, rule_getattr, rule_returns_always, rule_default_names, rule_loop_scope]
 LEVEL = "other"
 EXPLANATION = (
     "The tracer re-implements CPython's evaluation rules by hand; decided here, for all programs, are the parts of "
